@@ -169,7 +169,7 @@ class Pipeline:
                 continue
 
             new_absolute_path = (file.input_directory / new_relative_path).resolve()
-            if not str(new_absolute_path).startswith(str(file.input_directory)):
+            if not new_absolute_path.is_relative_to(file.input_directory):
                 raise InvalidDestinationError(
                     f"Path generated for {file!r}: {new_relative_path} is not relative to the input directory",
                 )
